@@ -2024,3 +2024,35 @@ Proof.
       eapply policy_stage_decodable; [exact Hk | apply Hd; exact Hp | exact Es]. }
     rewrite Hr. cbn [rbind]. eauto.
 Qed.
+
+(* ================================================================ the segment view is unambiguous *)
+Lemma read_asns_spec : forall asns r,
+  Forall (fun a => a < 4294967296) asns ->
+  read_asns (length asns) (flat_map be32 asns ++ r) = Some (asns, r).
+Proof.
+  induction asns as [|a asns IH]; intros r Hall; [reflexivity|].
+  inversion Hall as [|? ? Ha Hrest]; subst.
+  cbn [length flat_map be32 app read_asns]. rewrite (IH r Hrest), (rd32_be32 a Ha). reflexivity.
+Qed.
+
+Lemma parse_path_fuel_spec : forall p f,
+  wf_path p -> (length p <= f)%nat -> parse_path_fuel f (encode_path p) = Some p.
+Proof.
+  induction p as [|[t asns] rest IH]; intros f Hwf Hf.
+  - destruct f; reflexivity.
+  - destruct f as [|f]; [cbn [length] in Hf; lia|].
+    inversion Hwf as [|s l Hs Hl]; subst. destruct Hs as (_ & _ & Hall). cbn [snd] in Hall.
+    rewrite encode_path_cons. cbn [parse_path_fuel]. rewrite Nat2N.id.
+    rewrite (read_asns_spec asns _ Hall). rewrite (IH f Hl) by (cbn [length] in Hf; lia). reflexivity.
+Qed.
+
+Theorem parse_encode_path : forall p, wf_path p -> parse_path (encode_path p) = Some p.
+Proof.
+  intros p Hwf. unfold parse_path. apply parse_path_fuel_spec; [exact Hwf | apply encode_path_segments].
+Qed.
+
+Corollary encode_path_injective : forall p q, wf_path p -> wf_path q -> encode_path p = encode_path q -> p = q.
+Proof.
+  intros p q Hp Hq E. pose proof (parse_encode_path p Hp) as H1. pose proof (parse_encode_path q Hq) as H2.
+  rewrite E in H1. congruence.
+Qed.
